@@ -236,6 +236,8 @@ def handle (j : Json) : R Json := do
                  ("rj_same", toJson (match r1, rj with | .ok a, .ok b => a == b | _, _ => false)),
                  ("model_same", toJson modelSame), ("model_fixed", toJson fixed),
                  ("spec_gb", ← spec "re_gb" true), ("spec_json", ← spec "re_json" false), ("spec_mem", ← spec "re_mem" false),
+                 -- the GenBank re-read with the spaces taken out of candidate SMILES strings (class of a recorded finding)
+                 ("spec_gb_smiles", ← spec "re_gb_smiles" true),
                  ("cores", jArr (r.cands.map fun c => match c.coreLoc r with | .ok l => locToJson l | .error e => Json.str e)),
                  ("refs_valid", toJson (refsValid r)), ("sorted", toJson (areasSorted r)),
                  ("swo", toJson (strictWeak r)), ("nodup", toJson (decide (allEntries r).Nodup)),
